@@ -80,6 +80,10 @@ ThinExtra == {"member_path_missing", "member_path_directory", "member_path_self"
 TextCarriers == {"linker_script", "version_script", "export_list", "response_file"}
 TextOps == {"delete", "duplicate", "open-brace", "close-brace", "open-paren", "close-paren", "semicolon", "quote",
             "open-comment", "huge-number", "hex-prefix", "non-utf8", "nul-byte", "truncate-after", "star", "backslash"}
+(* Texts contain NAMES THAT REFER to other parts of the same text (a version node's parent, the sections and
+   symbols of a linker script): "xref-k" replaces the token (if it is a word) by the k-th distinct word of the
+   text - which yields self-, forward- and cyclic references and keywords in name position. *)
+XrefOps == {"xref-0", "xref-1", "xref-2", "xref-3", "xref-4", "xref-5", "xref-6", "xref-7", "xref-8", "xref-9"}
 TokenPositions == 0..23
 WholeTextOps == {"empty", "whitespace-only", "only-open-brace", "only-comment-open", "very-long-token", "deep-nesting", "all-ff"}
 
@@ -96,6 +100,7 @@ Cases ==
     \cup {[carrier |-> c, locus |-> <<"ar", l>>, mutation |-> m] : c \in {"archive", "thin_archive"}, l \in ArLoci, m \in ArFieldMut}
     \cup {[carrier |-> "thin_archive", locus |-> <<"thin", l>>, mutation |-> "apply"] : l \in ThinExtra}
     \cup {[carrier |-> c, locus |-> <<"token", p>>, mutation |-> o] : c \in TextCarriers, p \in TokenPositions, o \in TextOps}
+    \cup {[carrier |-> c, locus |-> <<"token", p>>, mutation |-> o] : c \in TextCarriers, p \in TokenPositions, o \in XrefOps}
     \cup {[carrier |-> c, locus |-> <<"whole">>, mutation |-> o] : c \in TextCarriers, o \in WholeTextOps}
     \cup {[carrier |-> "argv", locus |-> <<"option", s>>, mutation |-> m] : s \in OptionShapes, m \in ArgMut}
 
